@@ -15,6 +15,17 @@ CHECKS = {
          "reference evaluated on the input alone; complete enumeration of that finite space (exhaustive: true unless a cap is reported).",
          "Finite stated space only; readings of the statement pinned in evidence.assumptions (DESIGN.md C20/A).",
          "DESIGN.md section 6, C20"),
+ "C11": ("exploration",
+         "exhaustive product: coefficient lattice x dense temperature sweep on document-built models through predict()",
+         "For each of the seven model shapes an admissible coefficient lattice (balance points at the segment limits, interior and "
+         "equal; slope magnitudes 0.05/1/20; smoothing fractions incl. 0, below/at the 0.01 cut-off, sums below/at/above 1; two "
+         "intercepts; two fitted ranges) is turned into model documents, loaded with DailyModel.from_dict and evaluated by predict() "
+         "on ~830 temperatures (-60..140F step 0.25 plus every stored/effective balance point and range limit with their float "
+         "neighbours). Continuity (Lipschitz), base load between the effective balance points, monotonicity, the straight line with "
+         "the stored slope (exact unsmoothed, exponential bound smoothed), non-negative exclusive loads and additivity are checked on "
+         "every curve; complete enumeration of the lattice.",
+         "Lattice, not the continuum: nothing is claimed between lattice points (DESIGN.md section 7). Tolerances are ulp-scaled.",
+         "DESIGN.md section 6, C11"),
 }
 
 NOT_YET = {}
